@@ -48,6 +48,7 @@ for name in %(mods)r:
             d = {'kind': type(v).__name__}
             if d['kind'] == 'SELECT':
                 d['members'] = [getattr(t, '_typedef', None) if isinstance(getattr(t, '_typedef', None), str) else str(getattr(t, '_typedef', t)) for t in v._base_types]
+                d['unresolved'] = [x for x in d['members'] if isinstance(x, str) and not hasattr(m, x)]
             else:
                 d['b1'] = v.bound_1()
                 d['b2'] = v.bound_2()
@@ -149,6 +150,24 @@ def run_prog(job):
         shutil.rmtree(root, ignore_errors=True)
 
 
+def order_class(observed, ents, declared=None):
+    """'order:by-depth' when the observed base classes are sorted by the length of their own supertype chain, longest first (the generator's rule)"""
+    dep = {}
+
+    def depth(n):
+        n0 = n if n in ents else n.rstrip('_')
+        if n0 not in dep:
+            sup = ents.get(n0, {}).get('bases', [])
+            dep[n0] = 0 if not sup else 1 + max(depth(x) for x in sup)
+        return dep[n0]
+    ds = [depth(b) for b in observed]
+    if declared is not None:
+        # the rule, exactly: the declared list, stably sorted by depth, deepest first
+        want = sorted(declared, key=lambda b: -depth(b))
+        return 'order:by-depth' if list(observed) == want else 'order:other'
+    return 'order:by-depth' if ds == sorted(ds, reverse=True) else 'order:other'
+
+
 def norm_param(p):
     p = re.sub(r'^inherited\d+__', '', p)
     return p
@@ -185,7 +204,12 @@ def judge(name, text, schema_names, exp_ents, exp_types, res):
             continue
         wb = [kw(b) for b in e['bases']] or ['BaseEntityClass']
         if c['bases'] != wb:
-            out.append(('bases/%s' % ('order' if sorted(c['bases']) == sorted(wb) else 'set'), 'class %s has bases %s, supertypes are %s' % (en, c['bases'], wb)))
+            cls = 'set'
+            if sorted(c['bases']) == sorted(wb):
+                # the generator sorts the supertypes by the length of their own supertype chain (shallow first) to get a consistent MRO: an order
+                # that follows this rule is the known deviation from "declaration order", any other order is something else
+                cls = order_class(c['bases'], exp_ents, wb)
+            out.append(('bases/%s' % cls, 'class %s has bases %s, supertypes are %s' % (en, c['bases'], wb)))
         got = [norm_param(p) for p in c['init']]
         if not c.get('own_init') and not e['init']:
             got = []      # no attributes: the constructor of the run-time base class is inherited
@@ -231,8 +255,10 @@ def judge(name, text, schema_names, exp_ents, exp_types, res):
             continue
         if t['kind'] == 'ENUMERATION' and sorted(o['items']) != sorted(t['items']):
             out.append(('enumeration-items', 'type %s has items %s, declared %s' % (tn, o['items'], t['items'])))
-        if t['kind'] == 'SELECT' and sorted(str(x).lower() for x in o['members']) != sorted(t['members']):
+        if t['kind'] == 'SELECT' and sorted(str(x).lower().rstrip('_') for x in o['members']) != sorted(m.rstrip('_') for m in t['members']):
             out.append(('select-members', 'type %s has members %s, declared %s' % (tn, o['members'], t['members'])))
+        if t['kind'] == 'SELECT' and o.get('unresolved'):
+            out.append(('select-member-unresolved', 'type %s lists %s, which the module does not define (escaped names must be used consistently)' % (tn, o['unresolved'])))
         if t['kind'] in ('LIST', 'SET', 'BAG', 'ARRAY'):
             if (o['b1'], o['b2']) != (t['b1'] if t['b1'] is not None else 0, t['b2']):
                 out.append(('aggregate-bounds/%s' % t['kind'].lower(), 'type %s has bounds [%s:%s], declared [%s:%s]' % (tn, o['b1'], o['b2'], t['b1'], t['b2'])))
@@ -296,6 +322,19 @@ def family_F(tier):
             for order in (types, list(reversed(types))):
                 out.append(smodel.Schema('n_chain_%d' % k, list(order), [smodel.Entity('uses', [smodel.Attr('v', N(perm[-1])), smodel.Attr('u', N(perm[0]))])]))
                 k += 1
+    # an entity whose two supertypes have supertype chains of the same length, one of them the bottom of a diamond
+    one = lambda n, sup=(): smodel.Entity(n, [smodel.Attr('a_' + n, I)], supers=list(sup))
+    out.append(smodel.Schema('n_stacked_mi', [], [one('r'), one('p', ['r']), one('q', ['r']), one('y', ['p', 'q']), one('xpp'), one('xp', ['xpp']), one('x', ['xp']),
+                                                   one('e', ['x', 'y']), one('f', ['y', 'x']), one('r2'), one('q2', ['r2']), one('y2', ['p', 'q2']), one('g', ['x', 'y2'])]))
+    out.append(smodel.Schema('n_sel_kw', [smodel.TypeDecl('pick', ('select', ['class', 'grp'])), smodel.TypeDecl('import', ('select', ['grp', 'colour'])),
+                                          smodel.TypeDecl('colour', ('enum', ['red', 'green'])), smodel.TypeDecl('lambda', ('select', ['class', 'pass']))],
+                             [smodel.Entity('class', [smodel.Attr('c1', I)]), smodel.Entity('grp', [smodel.Attr('g1', I)]), smodel.Entity('pass', [smodel.Attr('p1', I)]),
+                              smodel.Entity('assignment', [smodel.Attr('item', N('pick')), smodel.Attr('what', N('import')), smodel.Attr('how', N('lambda'))])]))
+    sys.path.insert(0, '/verif/checks')
+    import c02
+    mi = lambda sup: any(len(sup[i]) > 1 and any(len(sup[j]) > 1 for j in sup[i][1:]) for i in range(len(sup)))
+    out += c02.family_D(4, 'n_dag4')
+    out += c02.family_D(5, 'n_dag5q' if tier == 'quick' else 'n_dag5', only=(lambda sup: mi(sup) or mi(tuple(tuple(reversed(x)) for x in sup))) if tier == 'quick' else None)
     return out
 
 
@@ -376,7 +415,7 @@ def main():
                     if c is None:
                         v.append(('entity-class-missing/%s' % name.split('/')[0], 'no class for entity %s' % en))
                     elif c['bases'] != (wb or ['BaseEntityClass']):
-                        v.append(('bases/%s' % ('order' if sorted(c['bases']) == sorted(wb) else 'set'), 'class %s has bases %s, supertypes are %s' % (en, c['bases'], wb)))
+                        v.append(('bases/%s' % (order_class(c['bases'], ee, wb) if sorted(c['bases']) == sorted(wb) else 'set'), 'class %s has bases %s, supertypes are %s' % (en, c['bases'], wb)))
         except Exception as ex:
             chk.harness_error('judge failed on %s: %r' % (name, ex))
             continue
